@@ -339,8 +339,9 @@ func runC20(c *Ctx) {
 			wm := &gen.WSign1{L: gen.WLayer{ProtMap: refcbor.NMap(refcbor.NInt(1), refcbor.NInt(int64(alg)), refcbor.NInt(258), refcbor.NInt(-16))}, Payload: make([]byte, 32), Sig: mon.FixedSig, Tagged: true}
 			return wm.Bytes()
 		}()
+		// (hash algorithms the library has no digest size for: SHA-256/64, SHA-512/256, SHA-1, SHAKE128, SHAKE256, unassigned)
 		hashEnvUnknown := func() []byte {
-			wm := &gen.WSign1{L: gen.WLayer{ProtMap: refcbor.NMap(refcbor.NInt(1), refcbor.NInt(int64(alg)), refcbor.NInt(258), refcbor.NInt(int64(-15-round)))}, Payload: make([]byte, 20), Sig: mon.FixedSig, Tagged: true}
+			wm := &gen.WSign1{L: gen.WLayer{ProtMap: refcbor.NMap(refcbor.NInt(1), refcbor.NInt(int64(alg)), refcbor.NInt(258), refcbor.NInt([]int64{-15, -17, -14, -18, -45, -100}[round%6]))}, Payload: make([]byte, 20), Sig: mon.FixedSig, Tagged: true}
 			return wm.Bytes()
 		}()
 		for f, fe := range vfaults {
